@@ -177,9 +177,11 @@ impl Prop for P {
         let bytes = out.bytes.unwrap();
         let f = Fst::new(bytes.clone()).unwrap();
         let map = fst::Map::new(bytes.clone()).unwrap();
+        let set = fst::Set::new(bytes.clone()).unwrap();
         let mut x = String::from("ok");
         let mut res = vec![];
-        for calls in &ranges {
+        let (mut nlight, mut nfull) = (0u64, 0u64);
+        for (ri, calls) in ranges.iter().enumerate() {
             let mut rb = f.range();
             let mut mb = map.range();
             for (k, b) in calls {
@@ -199,8 +201,16 @@ impl Prop for P {
             if viamap != got {
                 x = format!("Map::range disagrees with raw range for {}", fmt_calls(calls));
             }
+            // Map::range / Set::range by hand and through every collector (the collectors on every 4th range)
+            let full = ri % 4 == 0;
+            if let Err(e) = crate::wrap::range_wrappers(&map, &set, calls, &got, full) {
+                x = e;
+            }
+            if full { nfull += 1 } else { nlight += 1 }
             res.push(fmt_kvs(&got));
         }
+        xcount_add("range_map_set_next_loops", nlight + nfull);
+        xcount_add("range_map_set_collectors_bytes_values_strs", nfull);
         let s = res.join("/");
         format!("S:{}\tM:{}\tX:{}", s, s, x)
     }
